@@ -96,6 +96,17 @@ RecvKind(e, pre) == pre[e.r].k
 
 ---------------------------------------------------------------------------
 \* Construction, copies, conversions
+\* tokens of an input string with every non-SGR token spelled out as characters
+RECURSIVE FlatToks(_, _)
+FlatToks(toks, i) ==
+  IF i > Len(toks) THEN << >>
+  ELSE IF toks[i][1] \in {"c", "sgr"} THEN <<toks[i]>> \o FlatToks(toks, i + 1)
+  ELSE [k \in DOMAIN toks[i][2] |-> <<"c", <<toks[i][2][k]>> >>] \o FlatToks(toks, i + 1)
+
+\* strict reading of an input SGR body: digits and ';' only, no empty parameter unless wholly empty
+SgrStrictOK(params) ==
+  params = << >> \/ (LET pl == ParamList(params) IN pl.ok /\ TermEffs(pl.ps).ok)
+
 NewC(e, pre, post) ==
   LET w == post[e.res[1]]
       fromReg == e.a.src # 0
@@ -103,9 +114,24 @@ NewC(e, pre, post) ==
               ELSE << <<"lit", e.a.text, "none", 0, 0>> >>
       S == e.a.S
       exp == ExpS(base, pre, 1)
-  IN IF e.out # "ok" THEN None ELSE
+      hasEsc == ~fromReg /\ ~NoEsc(e.a.text)
+  IN IF e.out # "ok" THEN Cl("C13.new_defined", TRUE, FALSE)
+     ELSE IF hasEsc THEN
+       LET toks == FlatToks(Tokens(e.a.text), 1)
+           claim == InClaimCS(e.a.text) /\ \A i \in DOMAIN toks : toks[i][1] = "sgr" => SgrStrictOK(toks[i][2])
+           run == RunToks(toks, 1, DefaultState)
+           n == Len(run.chars)
+       IN Cl("C13.new_kind", TRUE, w.k = e.a.cls)
+       \o Cl("C02.text", claim, claim => w.t = [i \in 1..n |-> run.chars[i][1]])
+       \o Cl("C02.display", claim /\ S = << >> /\ HasSgr(toks),
+             (claim /\ S = << >>) =>
+                /\ Len(w.s) = n
+                /\ ValReadable(w)
+                /\ \A i \in 1..n : Display(w.s[i]) = run.chars[i][2])
+     ELSE
      Cl("C13.new_kind", TRUE, w.k = e.a.cls)
   \o Cl("C13.new_text", TRUE, TextIs(w, base, pre))
+  \o Cl("C02.plain_unformatted", ~fromReg /\ S = << >>, (~fromReg /\ S = << >>) => NoStyle(w))
   \o Cl("C13.new_gains", S # << >> \/ fromReg,
         /\ Len(w.s) = Len(exp)
         /\ \A k \in DOMAIN exp : BagPlus(Tids(exp[k]), S, Tids(w.s[k])))
@@ -267,6 +293,71 @@ ClearC(e, pre, post) ==
      \o KindC(e, pre, post, v.k)
 
 ---------------------------------------------------------------------------
+\* C01: rendering (str(), to_str() with the 8 flag combinations, format() with an empty spec)
+UsesParamOnly(v) == \A i \in DOMAIN v.s : \A k \in DOMAIN v.s[i] : ParamOnly[v.s[i][k][2]]
+\* text occurs in body as a run of whole ';'-separated parameters
+OccursIn(text, body) ==
+  \E off \in 0..(Len(body) - Len(text)) :
+     /\ SubSeq(body, off + 1, off + Len(text)) = text
+     /\ (off = 0 \/ body[off] = SEMI)
+     /\ (off + Len(text) = Len(body) \/ body[off + Len(text) + 1] = SEMI)
+
+Shown(run, v) ==
+  /\ Len(run.chars) = Len(v.t)
+  /\ \A i \in DOMAIN v.t : run.chars[i][1] = v.t[i] /\ run.chars[i][2] = Display(v.s[i])
+
+RenderC(e, pre, post) ==
+  LET v == pre[e.r]
+      fl == e.a.flags                         \* <<optimize, reset_start, reset_end>>
+  IN Cl("C01.defined", TRUE, e.out = "ok")
+  \o IF e.out # "ok" \/ e.a.spec # << >> THEN None ELSE
+     LET out == e.o.out
+         toks == Tokens(out)
+         claim == ValAllSingle(v) /\ NoEsc(v.t)
+         run0 == RunToks(toks, 1, DefaultState)
+         runD == RunToks(toks, 1, DirtyState)
+         firstReset == /\ toks # << >> /\ toks[1][1] = "sgr"
+                       /\ LET r == SgrRead(toks[1][2]) IN r.ok /\ r.effs # << >> /\ r.effs[1][1] = "reset"
+     IN Cl("C01.wellformed", claim /\ HasSgr(toks), claim => (ToksClean(toks) /\ ToksReadable(toks)))
+     \o Cl("C01.text", claim, claim => CharsOf(toks) = v.t)
+     \o Cl("C01.display", claim /\ HasStyle(v), claim => Shown(run0, v))
+     \o Cl("C01.reset_start_begins", fl[2] = 1, fl[2] = 1 => firstReset)
+     \o Cl("C01.reset_start_independent", fl[2] = 1 /\ claim /\ HasStyle(v), (fl[2] = 1 /\ claim) => Shown(runD, v))
+     \o Cl("C01.reset_end_default", fl[3] = 1 /\ claim /\ HasSgr(toks),
+           (fl[3] = 1 /\ claim /\ HasSgr(toks)) =>
+              (run0.fin = DefaultState /\ (fl[2] = 1 => runD.fin = DefaultState)))
+     \o Cl("C15.strip", UsesParamOnly(v) /\ NoEsc(v.t) /\ HasStyle(v),
+           (UsesParamOnly(v) /\ NoEsc(v.t) /\ e.o.valid = 1) => StripSgr(out) = v.t)
+     \o Cl("C15.verbatim_intact", UsesParamOnly(v) /\ NoEsc(v.t) /\ HasStyle(v) /\ (fl[1] = 0 \/ ~ValAllSingle(v)),
+           (UsesParamOnly(v) /\ NoEsc(v.t) /\ e.o.valid = 1 /\ (fl[1] = 0 \/ ~ValAllSingle(v))) =>
+              \A i \in DOMAIN v.s : \A k \in DOMAIN v.s[i] :
+                 \E j \in DOMAIN toks : toks[j][1] = "sgr" /\ OccursIn(TextTable[v.s[i][k][2]], toks[j][2]))
+
+---------------------------------------------------------------------------
+\* C03: render / re-parse round trip and simplify()
+ReparseC(e, pre, post) ==
+  LET v == pre[e.r] IN
+     Cl("C03.reparse_defined", TRUE, e.out = "ok")
+  \o IF e.out # "ok" THEN None ELSE
+     LET w == post[e.res[1]]
+         claim == ValAllSingle(v) /\ NoEsc(v.t)
+     IN Cl("C03.roundtrip_text", claim, claim => w.t = v.t)
+     \o Cl("C03.roundtrip_display", claim /\ HasStyle(v), claim => (ValReadable(w) /\ SameDisplay(v, w)))
+
+SimplifyC(e, pre, post) ==
+  LET v == pre[e.r] IN
+     Cl("C03.simplify_defined", TRUE, e.out = "ok")
+  \o IF ~HasResult(e) THEN None ELSE
+     LET w == ResultOf(e, post)
+         claim == ValReadable(v) /\ NoEsc(v.t)
+     IN Cl("C03.simplify_text", TRUE, NoEsc(v.t) => w.t = v.t)
+     \o Cl("C03.simplify_display", claim /\ HasStyle(v), claim => (ValReadable(w) /\ SameDisplay(v, w)))
+     \o Cl("C03.simplify_parsable", HasStyle(v), NoEsc(v.t) => (e.o.parsable = 1 /\ ValAllSingle(w)))
+     \o Cl("C03.simplify_idempotent", HasStyle(v), NoEsc(v.t) => e.o.q2 = w.q)
+     \o Cl("C03.simplify_fixed_point", HasStyle(v), NoEsc(v.t) => e.o.rt = w.q)
+     \o KindC(e, pre, post, v.k)
+
+---------------------------------------------------------------------------
 EqC(e, pre, post) ==
   IF e.tag = "probe_copy_eq"
   THEN Cl("C08.copy_compares_equal", TRUE, e.out = "ok" /\ e.o.eq = 1)
@@ -286,6 +377,9 @@ OpClauses(e, pre, post) ==
     [] e.op = "remove" -> RemoveC(e, pre, post)
     [] e.op = "clear"  -> ClearC(e, pre, post)
     [] e.op = "eq"     -> EqC(e, pre, post)
+    [] e.op = "render" -> RenderC(e, pre, post)
+    [] e.op = "reparse" -> ReparseC(e, pre, post)
+    [] e.op = "simplify" -> SimplifyC(e, pre, post)
     [] OTHER -> None
 
 Clauses(e, pre, post) == Common(e, pre, post) \o OpClauses(e, pre, post)
